@@ -2,7 +2,7 @@
    R = rows along the grouping axis ((label, cells)), K = keys, key : R -> K reads the group key;
    keqb is == on keys, kleb the order NumPy sorts the key dtype by.  All statements are for every
    list of rows (any length, any number of distinct keys) and every key function. *)
-Require Import SF.Prelude SF.PySlice SF.Group SF.GroupCode SF.Window Gen.Gen_c13
+Require Import SF.Prelude SF.PySlice SF.Group SF.GroupCode SF.WindowSpec SF.Window Gen.Gen_c13
   Proofs.GroupFacts Proofs.GroupPaths Proofs.GroupFallback Proofs.GroupInst Proofs.WindowFacts.
 
 (* --- the specification is a partition --- *)
